@@ -276,7 +276,7 @@ def main(tier, seed):
         traces_validated_against_impl=stats['renamings'] + stats['copies'], input_distribution=stats,
         samples=samples or [dict(note='none')],
         source_blobs=repo_blob_ids(['sismic/model/statechart.py', 'sismic/interpreter/default.py']),
-        proof_info={k: info.get(k) for k in ('build_ok', 'ok', 'closed', 'axioms', 'forbidden_tokens', 'note')})
+        proof_info={k: info.get(k) for k in ('build_ok', 'ok', 'closed', 'axioms', 'forbidden_tokens', 'note', 'coqchk')})
     write_evidence(PROP, tier, seed, t0, cov,
                    ['code fragments do not mention state names except inside tautologies (rename_state does not rewrite code)',
                     'copy_from_statechart: the host keeps the guest active (no host transition leaves the plug state); guests '
